@@ -407,7 +407,16 @@ def run(facts, cg):
                     for v, tgt in switch_edges(sw):
                         if v == 0 and tgt in dom.get(bi, ()):
                             guarded = True
-            instances.append({'rule': 'R-STOREONCE', 'function': b.q, 'insert_at': t['loc'], 'guarded_by_absence_test': guarded})
+            # ... and it is stored under the hash the plan names it by (the `hash` of the reorder operation, which may be truncated to the
+            # archive's hash length): stored under the full digest of what was read back, the later `remove(op.hash)` never finds it -
+            # the copy re-reads a place that has been overwritten by then
+            from ..terms import walk
+            kt = simplify(T.resolve_env(simplify(T.of_operand(b, t['args'][1]))))
+            own_key = has_field(kt, 'hash') and not any(n_[0] == 'call' and n_[1].split('::')[-1] in ('hash', 'b2_digest', 'verify', 'digest', 'finalize', 'hash_sum') for n_ in walk(kt))
+            if not own_key:
+                finding('R-STOREONCE', b.q, 'stored-under-another-key', 'the chunk parked in memory at %s is stored under %s, not under the hash its reorder operation names it by: '
+                        'a plan made with truncated hashes never finds it again' % (t['loc'], show(kt)[:60]))
+            instances.append({'rule': 'R-STOREONCE', 'function': b.q, 'insert_at': t['loc'], 'guarded_by_absence_test': guarded, 'stored_under_the_operations_hash': own_key})
             if not guarded:
                 finding('R-STOREONCE', b.q, 'unguarded-store', 'a chunk read back from the output is put into the in-memory store at %s without testing that it is not '
                         'there yet: a later StoreInMem of the same chunk re-reads its (by then partly overwritten) place and replaces the good copy' % t['loc'])
